@@ -31,12 +31,18 @@ GRID = {
 PARTS = [("Binary", None, "u1"), ("DimensionBinary", None, "u2"), ("Kary", 3, "u1"), ("Binary", None, "u2")]
 
 
+EXTRA_QUICK = {"HCT": dict(nu=0.25, rho=0.5, c=0.1, delta=0.01), "VHCT": dict(nu=0.25, rho=0.5, c=0.1, delta=0.01, bound=1)}
+
+
 def tasks(tier, seed, which="C05"):
     ts = []
     for algo in ("T_HOO", "HCT", "VHCT"):
         grid = GRID[algo]
         if tier == "quick":
             grid = [grid[(seed + i) % len(grid)] for i in (0, 1)] if seed % 3 else grid[:2]
+        # always one smoothness constant far from 1 (nu enters the HCT/VHCT thresholds only through c1 = (rho/(3 nu))^(1/8))
+        if algo in EXTRA_QUICK and EXTRA_QUICK[algo] not in grid:
+            grid = list(grid) + [EXTRA_QUICK[algo]]
         for gi, params in enumerate(grid):
             for part, K, box in (PARTS if tier == "quick" else PARTS + [("RandomBinary", None, "u1"), ("RandomKary", 3, "mix2")]):
                 cfg = configs.cfg(algo, part, K, configs.BOXES[box], **params)
